@@ -12,16 +12,27 @@ NOTE_SYN = ("Trusted: syn 2 parse of the current sources (tools/synfacts), the m
             "lib/synq.py, wit-parser and wit-component sources as oracles. A pass means every listed structural "
             "obligation holds on the current tree, not that the full behavioural property is proved.")
 
-CLAIMS = {
-    "C18": dict(
-        level="other", engine="mirfacts+witness", design="DESIGN.md §5 C18",
-        technique="MIR dominator / must-pass-through / who-may-write rules + compile_fail witnesses (!Unpin)",
-        text="Static path rules on the runtime crate's MIR: the waitable leaves the set before the cancel built-in on "
-             "every path, delivery removes it from sets and map before the single callback, register/unregister always "
-             "update both set and map, only three functions mutate the map, Drop of an unfinished operation always "
-             "cancels, moving between tasks never registers before leaving. Partial: schedules are not explored.",
-        note=NOTE_MIR),
-}
+NOTES = {"mir": NOTE_MIR, "syn": NOTE_SYN, "mir+syn": NOTE_MIR + " " + NOTE_SYN}
+
+
+def load_claims():
+    import importlib
+    import sys
+    sys.path.insert(0, VERIF)
+    sys.dont_write_bytecode = True
+    out = {}
+    for i in range(1, 35):
+        pid = "C%02d" % i
+        if not os.path.exists(os.path.join(VERIF, "rules", pid + ".py")):
+            continue
+        mod = importlib.import_module("rules." + pid)
+        c = dict(getattr(mod, "CLAIM"))
+        c["note"] = NOTES.get(c["note"], c["note"])
+        out[pid] = c
+    return out
+
+
+CLAIMS = load_claims()
 
 NOT_APPLICABLE = {
     "C05": "value fidelity of executing Rust-generated components under an independent host quantifies over runtime "
